@@ -16,6 +16,8 @@ truncation: their lemmas carry the hypothesis that makes the 64-bit and the 32-b
 `offsetY ≤ height` for `SetFont`), stated explicitly each time.
 -/
 namespace Firefly.Tie.C19
+-- `omega` over terms with `% 2^64` / `% 2^32` recurses deeply on the literals
+set_option maxRecDepth 8000
 open Firefly.FbMem Firefly.Gen.C19Expr
 
 /-- low 32 bits of a regenerated 64-bit term -/
@@ -33,6 +35,21 @@ theorem lo_small (a : BitVec 64) (h : a.toNat < 4294967296) : lo a = a.toNat := 
 theorem lo_zero : lo 0#64 = 0 := by decide
 theorem lo_one : lo 1#64 = 1 := by decide
 
+/-- One normal form for the additive expressions and the guards over them: everything is read
+through `toNat` as arithmetic modulo `2^64` / `2^32` and handed to `omega`.  The same script proves
+the lemma for any *equivalent* way of writing the Go expression (`w - x + 1` vs `w - (x - 1)`,
+a hoisted local, `>=` vs `>` where the assignment is the identity at equality): a
+behaviour-preserving rewrite keeps the tie, a changed bound or comparison breaks it. -/
+macro "tie_norm" : tactic => `(tactic| simp only [lo, add32, sub32, BitVec.toNat_add, BitVec.toNat_sub, BitVec.toNat_ofNat,
+    BitVec.toNat_setWidth, BitVec.toNat_eq, BitVec.lt_def, BitVec.le_def, gt_iff_lt, ge_iff_le, decide_eq_true_eq,
+    decide_eq_decide, Bool.or_eq_true, Bool.and_eq_true])
+macro "tie_lin" : tactic => `(tactic| (tie_norm <;> omega))
+/-- the same for values selected by an `if` chain: split every `if`, then `omega` -/
+macro "tie_ite" : tactic => `(tactic| (tie_norm <;> (repeat' split) <;> omega))
+
+/-- guards: a regenerated `Bool` equals the model's decision, through the same normal form -/
+macro "tie_guard" : tactic => `(tactic| (rw [Bool.eq_iff_iff]; tie_norm <;> omega))
+
 /-! ## `fbOffset` -/
 
 /-- `((y + offsetY) * pitch) + (x * bytesPerPixel)` -/
@@ -45,47 +62,54 @@ theorem tie_fbOffset (y oy p x b : BitVec 64) (hy : y.toNat < 4294967296) (hoy :
 
 /-! ## `Fill`: clamp and clip (the D9 sites), both consoles -/
 
-/-- the four clamp guards and the clamped values `1` / `width` are `clampOrigin` -/
+/-- the clamp — guards and assigned values together, as the function `x ↦ x'` it computes — is
+`clampOrigin` (so `x >= w` and `x > w` are the same clamp: at `x = w` the assignment is the identity) -/
 theorem tie_textFillClamp (x w : BitVec 64) :
     VgaText.clampOrigin x.toNat w.toNat =
       if textFillXZero x then 1 else if textFillXBeyond x w then w.toNat else x.toNat := by
-  simp only [VgaText.clampOrigin, textFillXZero, textFillXBeyond, decide_eq_true_eq, BitVec.toNat_eq, ge_iff_le,
-    BitVec.le_def, BitVec.toNat_ofNat]
+  unfold VgaText.clampOrigin textFillXZero textFillXBeyond
+  tie_ite
 theorem tie_textFillClampY (y h : BitVec 64) :
     VgaText.clampOrigin y.toNat h.toNat =
       if textFillYZero y then 1 else if textFillYBeyond y h then h.toNat else y.toNat := by
-  simp only [VgaText.clampOrigin, textFillYZero, textFillYBeyond, decide_eq_true_eq, BitVec.toNat_eq, ge_iff_le,
-    BitVec.le_def, BitVec.toNat_ofNat]
+  unfold VgaText.clampOrigin textFillYZero textFillYBeyond
+  tie_ite
 theorem tie_pixFillClamp (x w : BitVec 64) :
     VesaFb.clampOrigin x.toNat w.toNat =
       if pixFillXZero x then 1 else if pixFillXBeyond x w then w.toNat else x.toNat := by
-  simp only [VesaFb.clampOrigin, pixFillXZero, pixFillXBeyond, decide_eq_true_eq, BitVec.toNat_eq, ge_iff_le,
-    BitVec.le_def, BitVec.toNat_ofNat]
+  unfold VesaFb.clampOrigin pixFillXZero pixFillXBeyond
+  tie_ite
 theorem tie_pixFillClampY (y h : BitVec 64) :
     VesaFb.clampOrigin y.toNat h.toNat =
       if pixFillYZero y then 1 else if pixFillYBeyond y h then h.toNat else y.toNat := by
-  simp only [VesaFb.clampOrigin, pixFillYZero, pixFillYBeyond, decide_eq_true_eq, BitVec.toNat_eq, ge_iff_le,
-    BitVec.le_def, BitVec.toNat_ofNat]
+  unfold VesaFb.clampOrigin pixFillYZero pixFillYBeyond
+  tie_ite
 
 /-- `Fill` returns at once on an empty grid (and, for the pixel console, without a font) -/
 theorem tie_fillEmptyGrid (w h font nil : BitVec 64) :
     textFillEmptyGrid w h = decide (w.toNat = 0 ∨ h.toNat = 0) ∧
     pixFillEmptyGrid font nil w h = (decide (font = nil) || decide (w.toNat = 0 ∨ h.toNat = 0)) := by
-  simp [textFillEmptyGrid, pixFillEmptyGrid, BitVec.toNat_eq, Bool.or_assoc]
+  constructor
+  · unfold textFillEmptyGrid; tie_guard
+  · unfold pixFillEmptyGrid; tie_guard
 
 /-- the clipped extent `width - x + 1` -/
 theorem tie_textFillClipW (w x : BitVec 64) (hw : w.toNat < 4294967296) (hx : x.toNat < 4294967296) :
     lo (textFillClipW w x) = add32 (sub32 w.toNat x.toNat) 1 := by
-  simp only [textFillClipW, lo_add, lo_sub, lo_one, lo_small _ hw, lo_small _ hx]
+  unfold textFillClipW
+  tie_lin
 theorem tie_textFillClipH (h y : BitVec 64) (hh : h.toNat < 4294967296) (hy : y.toNat < 4294967296) :
     lo (textFillClipH h y) = add32 (sub32 h.toNat y.toNat) 1 := by
-  simp only [textFillClipH, lo_add, lo_sub, lo_one, lo_small _ hh, lo_small _ hy]
+  unfold textFillClipH
+  tie_lin
 theorem tie_pixFillClipW (w x : BitVec 64) (hw : w.toNat < 4294967296) (hx : x.toNat < 4294967296) :
     lo (pixFillClipW w x) = add32 (sub32 w.toNat x.toNat) 1 := by
-  simp only [pixFillClipW, lo_add, lo_sub, lo_one, lo_small _ hw, lo_small _ hx]
+  unfold pixFillClipW
+  tie_lin
 theorem tie_pixFillClipH (h y : BitVec 64) (hh : h.toNat < 4294967296) (hy : y.toNat < 4294967296) :
     lo (pixFillClipH h y) = add32 (sub32 h.toNat y.toNat) 1 := by
-  simp only [pixFillClipH, lo_add, lo_sub, lo_one, lo_small _ hh, lo_small _ hy]
+  unfold pixFillClipH
+  tie_lin
 
 /-- the clip guard compares the extent with the room left — no sum of origin and extent, nothing
 that can wrap (the repaired D9 expression).  `1 ≤ x ≤ width` is the state after the clamp. -/
@@ -94,10 +118,12 @@ theorem tie_fillClipGuard (e w x : BitVec 64) (hw : w.toNat < 4294967296) (hx : 
     textFillClipHGuard e w x = decide (e.toNat > add32 (sub32 w.toNat x.toNat) 1) ∧
     pixFillClipWGuard e w x = decide (e.toNat > add32 (sub32 w.toNat x.toNat) 1) ∧
     pixFillClipHGuard e w x = decide (e.toNat > add32 (sub32 w.toNat x.toNat) 1) := by
-  have hv : ((w - x) + 1#64).toNat = add32 (sub32 w.toNat x.toNat) 1 := by
-    have := x.isLt
-    simp only [BitVec.toNat_add, BitVec.toNat_sub, BitVec.toNat_ofNat, add32, sub32]; omega
-  simp only [textFillClipWGuard, textFillClipHGuard, pixFillClipWGuard, pixFillClipHGuard, gt_iff_lt, BitVec.lt_def, hv, and_self]
+  have := e.isLt
+  refine ⟨?_, ?_, ?_, ?_⟩
+  · unfold textFillClipWGuard; tie_lin
+  · unfold textFillClipHGuard; tie_lin
+  · unfold pixFillClipWGuard; tie_lin
+  · unfold pixFillClipHGuard; tie_lin
 
 /-- the clip uses exactly `VgaText.clipExtent` / `VesaFb.clipExtent` -/
 theorem tie_clipExtent (e w x : BitVec 64) (hw : w.toNat < 4294967296) (hx : 1 ≤ x.toNat ∧ x.toNat ≤ w.toNat) :
@@ -150,7 +176,7 @@ theorem tie_textWord (bg fg ch : BitVec 64) (hbg : bg.toNat < 256) (hfg : fg.toN
 /-- the out-of-grid test of `Write` -/
 theorem tie_textWriteOutside (x w y h : BitVec 64) :
     textWriteOutside x w y h = decide (x.toNat < 1 ∨ x.toNat > w.toNat ∨ y.toNat < 1 ∨ y.toNat > h.toNat) := by
-  simp [textWriteOutside, BitVec.lt_def, Bool.or_assoc]
+  unfold textWriteOutside; tie_guard
 
 /-- `uint8(len(palette) - 1)` and the two colour-range guards: both use `>` (the repaired D10 operator) -/
 theorem tie_textWriteColors (len fg bg m : BitVec 64) :
@@ -159,8 +185,8 @@ theorem tie_textWriteColors (len fg bg m : BitVec 64) :
   refine ⟨?_, ?_, ?_⟩
   · have := len.isLt
     simp only [textWriteMaxColor, BitVec.toNat_setWidth, BitVec.toNat_sub, BitVec.toNat_ofNat]; omega
-  · simp only [textWriteFgGuard, gt_iff_lt, BitVec.lt_def]
-  · simp only [textWriteBgGuard, gt_iff_lt, BitVec.lt_def]
+  · unfold textWriteFgGuard; tie_guard
+  · unfold textWriteBgGuard; tie_guard
 
 theorem tie_textScroll (lines h w : BitVec 64) (hl : lines.toNat < 4294967296) (hh : h.toNat < 4294967296)
     (hw : w.toNat < 4294967296) :
@@ -168,7 +194,7 @@ theorem tie_textScroll (lines h w : BitVec 64) (hl : lines.toNat < 4294967296) (
     lo (textScrollOffset lines w) = mul32 lines.toNat w.toNat ∧
     lo (textScrollDownStart h w) = sub32 (mul32 h.toNat w.toNat) 1 := by
   refine ⟨?_, ?_, ?_⟩
-  · simp [textScrollIgnored, BitVec.lt_def, BitVec.toNat_eq]
+  · unfold textScrollIgnored; tie_guard
   · simp only [textScrollOffset, lo_mul, lo_small _ hl, lo_small _ hw]
   · simp only [textScrollDownStart, lo_sub, lo_mul, lo_one, lo_small _ hh, lo_small _ hw]
 
@@ -186,7 +212,7 @@ theorem tie_pixCell (x y e gw gh : BitVec 64) (hx : x.toNat < 4294967296) (hy : 
 theorem tie_pixWriteOutside (x w y h font nil : BitVec 64) :
     pixWriteOutside x w y h font nil =
       (decide (x.toNat < 1 ∨ x.toNat > w.toNat ∨ y.toNat < 1 ∨ y.toNat > h.toNat) || decide (font = nil)) := by
-  simp [pixWriteOutside, BitVec.lt_def, Bool.or_assoc]
+  unfold pixWriteOutside; tie_guard
 
 /-- `uint32(glyphIndex) * BytesPerRow * GlyphHeight` -/
 theorem tie_pixWriteFontOffset (ch bpr gh : BitVec 64) (hch : ch.toNat < 4294967296) (hb : bpr.toNat < 4294967296)
